@@ -16,15 +16,15 @@ func concProp(id string, quick, thorough int, rule string) {
 const concRule = "one case = one generated scenario (container kind, hash mode, table knobs, prefill, set-up, 1-3 phases of 2-4 tasks x 1-8 operations, strategy, delay/stall faults) executed under the seeded scheduler; distinct = distinct hash of the full event trace (task, operation kind, address ordinal at every synchronisation step); non-trivial = at least two operations of different tasks overlapped in the phase (a context switch landed between the first and last step of an operation)"
 
 func init() {
-	concProp("C02", 60000, 60000, concRule+"; oracle: porcupine against the frozen-clock TTL-map model + sequential read-out")
-	concProp("C03", 80000, 80000, concRule+"; oracle: porcupine against map[string]interface{} + sequential read-out")
-	concProp("C04", 80000, 80000, concRule+"; oracle: porcupine against map[K]V + sequential read-out; key types int, string, struct, any; default and adversarial hashers")
-	concProp("C05", 60000, 60000, concRule+"; workloads: racers on one key / increment chains; oracle: exactly-one-winner, user-function call counts, distinct contiguous old values")
-	concProp("C06", 60000, 60000, concRule+"; oracle: evicted-callback ledger rules R1-R5")
-	concProp("C07", 60000, 60000, concRule+"; oracle: traversal rules (no duplicate, early stop, stably-present keys visited, visits linearizable as loads)")
-	concProp("C08", 80000, 80000, concRule+"; oracle: Size/Count vs Range visits vs keys found at every quiescent point")
-	concProp("C13", 80000, 80000, concRule+"; oracle: scheduler deadlock / livelock proof")
-	concProp("C16", 60000, 60000, concRule+"; fault: a victim writer is frozen for the rest of the run; oracle: readers return without joining a wait set, within a linear bound of own steps, results linearizable with the victim pending")
+	concProp("C02", 200000, 200000, concRule+"; oracle: porcupine against the frozen-clock TTL-map model + sequential read-out")
+	concProp("C03", 300000, 300000, concRule+"; oracle: porcupine against map[string]interface{} + sequential read-out")
+	concProp("C04", 300000, 300000, concRule+"; oracle: porcupine against map[K]V + sequential read-out; key types int, string, struct, any; default and adversarial hashers")
+	concProp("C05", 250000, 250000, concRule+"; workloads: racers on one key / increment chains; oracle: exactly-one-winner, user-function call counts, distinct contiguous old values")
+	concProp("C06", 200000, 200000, concRule+"; oracle: evicted-callback ledger rules R1-R5")
+	concProp("C07", 150000, 150000, concRule+"; oracle: traversal rules (no duplicate, early stop, stably-present keys visited, visits linearizable as loads)")
+	concProp("C08", 250000, 250000, concRule+"; oracle: Size/Count vs Range visits vs keys found at every quiescent point")
+	concProp("C13", 300000, 300000, concRule+"; oracle: scheduler deadlock / livelock proof")
+	concProp("C16", 300000, 300000, concRule+"; fault: a victim writer is frozen for the rest of the run; oracle: readers return without joining a wait set, within a linear bound of own steps, results linearizable with the victim pending")
 }
 
 func seqOrConc(id string, seqShare float64, seqGen func(seed uint64, tier string) *SeqScenario) func(seed uint64, tier string) *Case {
@@ -40,13 +40,13 @@ func seqOrConc(id string, seqShare float64, seqGen func(seed uint64, tier string
 const seqRule = "one case = one generated call sequence (5-60 calls quick, up to 300 thorough; whole API; TTL arguments from boundary values and sentinels; clock advances of 0, 1 ns, exactly to e-1/e/e+1 of a stored entry, small, large) executed by one client task with the janitor as a background task under the virtual clock, checked call by call against the reference model of DESIGN Appendix A; distinct = distinct event-trace hash; non-trivial = some call touched an expired-uncleaned entry or a clock advance landed within 1 ns of an expiration instant"
 
 func init() {
-	register(&PropDef{ID: "C01", Runs: map[string]int{"quick": 120000, "thorough": 120000}, Rule: seqRule,
+	register(&PropDef{ID: "C01", Runs: map[string]int{"quick": 300000, "thorough": 300000}, Rule: seqRule,
 		Gen: func(seed uint64, tier string) *Case { return &Case{Seq: genSeqCache("C01", seed, tier, CacheKinds)} }})
-	register(&PropDef{ID: "C09", Runs: map[string]int{"quick": 120000, "thorough": 120000}, Rule: seqRule + "; C09: TTL and default-TTL arguments additionally drawn from all int64 values; oracle: exact reported instants and remaining TTLs",
+	register(&PropDef{ID: "C09", Runs: map[string]int{"quick": 300000, "thorough": 300000}, Rule: seqRule + "; C09: TTL and default-TTL arguments additionally drawn from all int64 values; oracle: exact reported instants and remaining TTLs",
 		Gen: func(seed uint64, tier string) *Case { return &Case{Seq: genSeqCache("C09", seed, tier, CacheKinds)} }})
-	register(&PropDef{ID: "C12", Runs: map[string]int{"quick": 80000, "thorough": 80000}, Rule: "one case = one generated call sequence driven into both twins (Cache and CacheOf[string,any], or Map and MapOf[string,any]) in one simulated world (one virtual clock, same tick instants); every return value, callback report (multiset per call), traversal set and count is compared pairwise; distinct = distinct event-trace hash; non-trivial = at least one eviction report or janitor tick (caches) or one table resize (maps)",
+	register(&PropDef{ID: "C12", Runs: map[string]int{"quick": 150000, "thorough": 150000}, Rule: "one case = one generated call sequence driven into both twins (Cache and CacheOf[string,any], or Map and MapOf[string,any]) in one simulated world (one virtual clock, same tick instants); every return value, callback report (multiset per call), traversal set and count is compared pairwise; distinct = distinct event-trace hash; non-trivial = at least one eviction report or janitor tick (caches) or one table resize (maps)",
 		Gen: func(seed uint64, tier string) *Case { return &Case{Seq: genTwin(seed, tier)} }})
-	register(&PropDef{ID: "C11", Runs: map[string]int{"quick": 30000, "thorough": 30000}, Rule: "one case = one generated call sequence (point operations + bulk inserts/deletes crossing grow and shrink thresholds) driven into a builtin-map reference and two sibling instances that differ in presize/MinCapacity, table-seed stream, hash mode, min-table-length knob and a prior fill-and-Clear; every return value is compared with the reference and between the siblings; distinct = distinct event-trace hash; non-trivial = at least one grow or shrink happened",
+	register(&PropDef{ID: "C11", Runs: map[string]int{"quick": 100000, "thorough": 100000}, Rule: "one case = one generated call sequence (point operations + bulk inserts/deletes crossing grow and shrink thresholds) driven into a builtin-map reference and two sibling instances that differ in presize/MinCapacity, table-seed stream, hash mode, min-table-length knob and a prior fill-and-Clear; every return value is compared with the reference and between the siblings; distinct = distinct event-trace hash; non-trivial = at least one grow or shrink happened",
 		Gen: func(seed uint64, tier string) *Case { return &Case{Seq: genSibling(seed, tier)} }})
 	// properties decided on both sequential and concurrent scenarios
 	props["C06"].Gen = seqOrConc("C06", 0.4, func(seed uint64, tier string) *SeqScenario { return genSeqCache("C06", seed, tier, CacheKinds) })
@@ -65,10 +65,10 @@ func init() {
 }
 
 func init() {
-	register(&PropDef{ID: "C10", Runs: map[string]int{"quick": 60000, "thorough": 60000},
+	register(&PropDef{ID: "C10", Runs: map[string]int{"quick": 400000, "thorough": 400000},
 		Rule: "one case = one key type of a 33-type catalogue (every comparable kind, structs with padding / blank / interface / nested fields, any and a non-empty interface holding each of them and nil) with a pool of equal-but-differently-built values, a random call sequence on MapOf[K,int64] or CacheOf[K,int64] mirrored on a builtin map[K]int64, under simulator-chosen table seeds, min table length and hash mode (native / deterministic / forced collisions), pointees mutated in between; distinct = distinct event-trace hash; every case is non-trivial (the pools always contain equal-but-differently-built keys)",
 		Gen: genKeys})
-	register(&PropDef{ID: "C15", Runs: map[string]int{"quick": 40000, "thorough": 40000},
+	register(&PropDef{ID: "C15", Runs: map[string]int{"quick": 150000, "thorough": 150000},
 		Rule: "(a) one case = a cache built by a random constructor variant with interval in {negative, 0, 1 ns .. 1 h}, entries with various TTLs, then only clock advances and Count() polls (no call names a key): checked against the TTL model (janitor passes remove and report exactly the expired entries; no pass and no Count change when interval <= 0; nothing uncleaned two intervals after its instant); (b) 1% of cases: n caches are created, filled with finalizer-carrying payloads and dropped, then real GC rounds alternate with scheduler pumps until every janitor task has ended and every payload was collected (bound 20 s); distinct = distinct event-trace hash; non-trivial = a clock advance landed within 1 ns of an expiration instant or an expired entry was touched, all (b) cases",
 		Gen: func(seed uint64, tier string) *Case {
 			r := simrtRNG(seed ^ 0xC15)
@@ -77,7 +77,7 @@ func init() {
 			}
 			return &Case{Seq: genSeqCache("C15", seed, tier, CacheKinds)}
 		}})
-	register(&PropDef{ID: "C14", Runs: map[string]int{"quick": 20000, "thorough": 20000},
+	register(&PropDef{ID: "C14", Runs: map[string]int{"quick": 100000, "thorough": 100000},
 		Rule: concRule + "; built with -race; values are pointers to structs initialised by plain writes just before the store and read field by field (checksum) by every task that obtains them; 2-8 tasks; oracle: zero race reports whose stacks include the code under test or the payload accessors, intact payloads",
 		Gen: func(seed uint64, tier string) *Case { return &Case{Conc: genConc("C14", seed, tier)} }})
 }
